@@ -168,6 +168,8 @@ struct ChildState {
     probes: u64,
     counters: std::collections::BTreeMap<String, i64>,
     violations: Vec<Value>,
+    /// the target of the last question asked before the latest reconfiguration(s)
+    last_target: Option<String>,
 }
 
 impl ChildState {
@@ -196,9 +198,22 @@ fn probe_global(
         st.viol("C02:facade-max-level", json!({"step": step, "spec": spec.to_json(),
             "expected": want_max.to_string(), "got": got_max.to_string()}));
     }
+    // the first question after a reconfiguration is the last one asked before it (an answer remembered
+    // across reconfigurations would be stale exactly here)
+    if let Some(t) = st.last_target.clone() {
+        for lvl in LEVELS {
+            let en = log::log_enabled!(target: &t, lvl);
+            st.count("questions_repeated_right_after_a_reconfiguration");
+            if en != spec.enabled(&t, lvl) {
+                st.viol("C02:log_enabled-macro:same-question-after-reconfiguration", json!({"step": step, "spec": spec.to_json(), "target": t,
+                    "level": lvl.to_string(), "expected": spec.enabled(&t, lvl), "got": en}));
+            }
+        }
+    }
     let mut targets = probe_targets(spec, rng);
     rng.shuffle(&mut targets);
     targets.truncate(25);
+    st.last_target = targets.last().cloned();
     for t in targets {
         for lvl in LEVELS {
             st.probes += 1;
@@ -225,7 +240,7 @@ pub fn child_main(args: &[String]) -> i32 {
     let seed: u64 = args[0].parse().unwrap();
     let variant: usize = args[1].parse().unwrap();
     let mut rng = Rng::new(seed);
-    let mut st = ChildState { probes: 0, counters: Default::default(), violations: vec![] };
+    let mut st = ChildState { probes: 0, counters: Default::default(), violations: vec![], last_target: None };
     let mut max_levels: Vec<String> = vec![];
     let steps;
 
@@ -299,6 +314,11 @@ pub fn child_main(args: &[String]) -> i32 {
             prev = m;
             max_levels.push(m.to_string());
             st.count("set_config_calls");
+            // a third of the reconfigurations are followed by the next one at once, nothing asked in between
+            if i + 1 < specs.len() && rng.chance(1, 3) {
+                st.count("reconfigurations_without_a_question_in_between");
+                continue;
+            }
             probe_global(&mut st, s, &mut rng, i, &mut observe);
         }
         steps = specs.len();
